@@ -3,6 +3,7 @@ package main
 import (
 	"fmt"
 	"runtime"
+	"strings"
 	"sync"
 	"sync/atomic"
 	"time"
@@ -149,10 +150,11 @@ func (w *World) setLoopHook(name string) {
 }
 
 func (w *World) perturb() {
+	w.yieldMu.Lock()
 	if w.yield == nil {
+		w.yieldMu.Unlock()
 		return
 	}
-	w.yieldMu.Lock()
 	x := w.yield.Intn(16)
 	w.yieldMu.Unlock()
 	switch {
@@ -262,21 +264,46 @@ func (w *World) hook(name string, args ...any) {
 	w.perturb()
 }
 
-// stable reports whether nothing will move without a new external action.
-func (w *World) stable() bool {
-	if w.held.Load() {
-		return true
+// loopGoroutines inspects the Go runtime: how many goroutines are executing processLoop, and are
+// all of them blocked (in the loop's select, or held by the harness at a hook / behind a held lock)?
+// A goroutine that a channel operation has made ready is reported as runnable, so "blocked" is
+// exact at the instant of the snapshot. This needs neither hooks nor the model.
+func loopGoroutines(held bool) (n int, allBlocked bool) {
+	buf := make([]byte, 1<<16)
+	for {
+		m := runtime.Stack(buf, true)
+		if m < len(buf) {
+			buf = buf[:m]
+			break
+		}
+		buf = make([]byte, 2*len(buf))
 	}
-	if w.loopsStarted.Load() == w.loopsReleased.Load() {
-		return true
-	}
-	if w.lastLoopHook.Load().(string) == "parked" && !w.resetPending.Load() && !w.stopClosed.Load() {
-		dl, _ := w.clk.LastDeadline()
-		if w.clk.Now().Before(dl) {
-			return true
+	allBlocked = true
+	for _, g := range strings.Split(string(buf), "\n\n") {
+		if !strings.Contains(g, ").processLoop(") && !strings.Contains(g, ").process.func") {
+			continue
+		}
+		n++
+		state := ""
+		if i := strings.IndexByte(g, '['); i >= 0 {
+			if j := strings.IndexAny(g[i:], ",]"); j > 0 {
+				state = g[i+1 : i+j]
+			}
+		}
+		switch {
+		case state == "select" && !strings.Contains(g, "verifhook"):
+		case held && (state == "chan receive" || state == "sync.Mutex.Lock" || state == "select"):
+		default:
+			allBlocked = false
 		}
 	}
-	return false
+	return n, allBlocked
+}
+
+// stable reports whether nothing will move without a new external action.
+func (w *World) stable() bool {
+	_, blocked := loopGoroutines(w.held.Load())
+	return blocked
 }
 
 // settle waits until the world is stable (twice in a row, to let a just-returned API call's
@@ -287,7 +314,7 @@ func (w *World) settle(timeout time.Duration) bool {
 	for {
 		if w.stable() {
 			ok++
-			if ok >= 3 {
+			if ok >= 2 {
 				return true
 			}
 		} else {
@@ -297,7 +324,6 @@ func (w *World) settle(timeout time.Duration) bool {
 			return false
 		}
 		runtime.Gosched()
-		time.Sleep(5 * time.Microsecond)
 	}
 }
 
@@ -319,7 +345,10 @@ func (w *World) events() []Ev {
 	return append([]Ev(nil), w.evs...)
 }
 
-func (w *World) loopsAlive() int { return int(w.loopsStarted.Load() - w.loopsReleased.Load()) }
+func (w *World) loopsAlive() int {
+	n, _ := loopGoroutines(w.held.Load())
+	return n
+}
 
 // runWithDeadline runs f in a goroutine; returns false if it has not returned within d.
 func runWithDeadline(f func(), d time.Duration) (done chan struct{}, finished bool) {
